@@ -29,6 +29,8 @@ func runC35(c *eng.Ctx) {
 		Pkg:    "weed/wdclient",
 		Exempt: map[string]string{"weed/wdclient.newVidMap": "constructor: the value is not shared yet"},
 	})
+	c.CheckLockPairs("PAIR-vidmap", "weed/wdclient", "vidMap.RWMutex", nil)
+	c.Expect("PAIR-vidmap", 4)
 	c.Expect("LOCK-vidmap", 4)
 
 	// ---------------------------------------------------------------- (2) WHOLE
